@@ -126,8 +126,71 @@ def header(x, p):
         x.check('byline survives minification', lout.get_byline() == bin_)
 
 
+CLI_SOURCES = [
+    (b'-- my game\n-- by me\nx=1\ny=2', [b'-- my game', b'-- by me']),
+    (b'-- my game\n-- by me\nreturn {a=1}\n', [b'-- my game', b'-- by me']),
+    (b'-- my game\n-- by me\nx=1\nreturn\n', [b'-- my game', b'-- by me']),
+    (b'--t\n\n//a\n\nfunction _init() end\n-- later\n', [b'--t', b'//a']),
+    (b'-- only title\nx=1 -- not a header\n', [b'-- only title']),
+    (b'x=1\n-- not a header\n', []),
+]
+
+
+def cli(x, p):
+    """The commands a user runs: `p8tool luamin cart.p8` and `p8tool build
+    --lua main.lua --lua-minify out.p8` (real argparse wiring, the writer
+    run as often as the cart writer runs it), sources with and without a
+    final line end: the written cart's code starts with the two header
+    comments, each on its own line."""
+    from props import clikit
+    src, hdr = x.choice('source', CLI_SOURCES)
+    final_nl = x.choice('final_nl', [True, False])
+    if src.endswith(b'\n') and not final_nl:
+        src = src[:-1]
+    elif not src.endswith(b'\n') and final_nl:
+        src = src + b'\n'
+    cmd = x.choice('cmd', ['luamin', 'build', 'luamin twice'])
+    if cmd == 'build':
+        fs = clikit.MemFS(x, {'/w/main.lua': src})
+        rc, exc = clikit.run_main(['build', '--lua', '/w/main.lua',
+                                   '--lua-minify', '/w/out.p8'])
+        dest = '/w/out.p8'
+    else:
+        fs = clikit.MemFS(x, {'/w/in.p8': clikit.p8_text(
+            src if src.endswith(b'\n') else src + b'\n')})
+        rc, exc = clikit.run_main(['luamin', '/w/in.p8'])
+        dest = '/w/in_fmt.p8'
+        if cmd == 'luamin twice' and exc is None and rc == 0:
+            # minify the minified cart again: the header stays
+            fs.files['/w/in.p8'] = fs.files[dest]
+            rc, exc = clikit.run_main(['luamin', '/w/in.p8'])
+    x.check('the command succeeds', And(exc is None, rc == 0),
+            info=repr((rc, exc))[:160])
+    if exc is not None or rc != 0 or dest not in fs.files:
+        return
+    out = clikit.lua_of(fs.files[dest])
+    x.out('code', out)
+    prefix = b''.join(c + b'\n' for c in hdr)
+    x.check('the written code starts with the header comments, verbatim, '
+            'each on its own line', out[:len(prefix)] == prefix)
+    lx = lexer.Lexer(version=8)
+    lx.process_lines([out[len(prefix):]])
+    x.check('no other comment is written', not any(
+        isinstance(t, lexer.TokComment) for t in lx.tokens))
+    lx2 = lexer.Lexer(version=8)
+    lx2.process_lines([out])
+    l2 = lua_of(lx2.tokens)
+    if len(hdr) >= 1:
+        x.check('stats still reports the title',
+                l2.get_title() == hdr[0][2:].strip())
+    if len(hdr) == 2:
+        x.check('stats still reports the byline',
+                l2.get_byline() == hdr[1][2:].strip())
+
+
 Q = {'_budget': 600}
 HARNESSES = [
     Harness('header', header, quick=[dict(Q, k=1), dict(Q, k=2), dict(Q, k=3)],
             thorough=[dict(Q, k=k, _budget=2400) for k in (1, 2, 3, 4, 5)]),
+    Harness('cli', cli, quick=[Q]),
 ]
